@@ -7,7 +7,8 @@ CONSTANTS
   TagCounts = {0, 1, 2}
   LeafMode = "fixed"
   Shape = "d2"
+  SkipName = TRUE
   PredKeys <- Plain
   PredVals <- OnlyA
-INVARIANTS KeyRoundTrips ModelAgreesUnlessMeasEq
+INVARIANTS KeyRoundTrips ModelAgrees
 CHECK_DEADLOCK FALSE
